@@ -99,6 +99,26 @@ def gen_cases(tier, rng):
         cases.append({"id": "rnd/%d" % i, "hex": master_case(27011 + r.below(3), r.choice(REGIONS), ops, 1, sa, [PAGE1], has),
                       "meta": {"stream": "filter-random", "groups": [[(k, v.hex()) for k, v in grp] for grp in expected_groups(exps)] if has else [[], [], []],
                                "nops": d, "seed": "%d.%d.%d.%d:%d" % sa}})
+    # --- large groups: 9 to 18 distinct kinds in one group (a two-digit count), others sparsely filled ---
+    for i in range(120 if tier == "quick" else 3000):
+        big = 1 + r.below(2) if i % 5 else r.below(3)
+        kinds = list(range(18))
+        for a in range(17, 0, -1):
+            b = r.below(a + 1)
+            kinds[a], kinds[b] = kinds[b], kinds[a]
+        items = []
+        for k in kinds[:9 + r.below(10)]:
+            enc, exp = filt(k, r.choice(values(k)))
+            items.append((big, k, enc, exp))
+        for _ in range(r.below(4)):
+            g, k = r.below(3), r.below(18)
+            enc, exp = filt(k, r.choice(values(k)))
+            items.insert(r.below(len(items) + 1), (g, k, enc, exp))
+        ops = [(g, enc) for g, k, enc, exp in items]
+        exps = [(g, k, exp) for g, k, enc, exp in items]
+        cases.append({"id": "big/%d" % i, "hex": master_case(27011, r.choice(REGIONS), ops, 1, (0, 0, 0, 0, 0), [PAGE1]),
+                      "meta": {"stream": "filter-large-groups", "groups": [[(k, v.hex()) for k, v in grp] for grp in expected_groups(exps)],
+                               "nops": len(ops), "seed": "0.0.0.0:0"}})
     # --- paging: listings from the extracted Spec generator ---
     npag = 400 if tier == "quick" else 8000
     seeds = [rng.next() >> 1 for _ in range(npag)]
